@@ -668,6 +668,15 @@ func maxInt(a, b int) int {
 	return b
 }
 
+// dropSomeKeys removes, one time in six, one key of a parameter object whose absent keys mean 0.
+func (s *genState) dropSomeKeys(p M) {
+	if len(p) == 0 || !s.g.Chance(1, 6) {
+		return
+	}
+	ks := sortedKeys(p)
+	delete(p, ks[s.g.Int(0, len(ks)-1)])
+}
+
 func (s *genState) genBiasProps(name string, req M) M {
 	g := s.g
 	p := M{}
@@ -685,6 +694,8 @@ func (s *genState) genBiasProps(name string, req M) M {
 			p["function"] = "expFromZero"
 			p["params"] = M{"alpha": g.Unif(0.01, 0.2), "multiplier": g.Unif(0.1, 2), "queryNumber": g.Int(0, 20)}
 		}
+		// an absent numeric parameter is 0 (and must not inherit the value an earlier application decoded)
+		s.dropSomeKeys(asM(p["params"]))
 		p["randomSeed"] = g.Seed()
 		s.bounding(p)
 	case "criteriaConcealment":
@@ -721,6 +732,8 @@ func (s *genState) genBiasProps(name string, req M) M {
 			return M{"function": "expFromZero", "params": M{"alpha": g.Unif(0, 1.5), "multiplier": g.PickF(0, 0.5, 1, g.Unif(0, 1.5))}}
 		}
 		p["loss"], p["gain"] = fn(), fn()
+		s.dropSomeKeys(asM(asM(p["loss"])["params"]))
+		s.dropSomeKeys(asM(asM(p["gain"])["params"]))
 		p["referencePoints"] = M{"function": g.Pick("ideal", "nadir")}
 		ap := M{}
 		s.bounding(ap)
